@@ -28,6 +28,18 @@ type fwdLoop struct {
 //	(B) i = phi[ 0, i+1];              if i  < len(L)      (classic loops; index used: i)
 func fullIndexLoops(fn *ssa.Function) []*fwdLoop {
 	var out []*fwdLoop
+	for _, fl := range countingLoops(fn) {
+		if fl.lenArg != nil {
+			out = append(out, fl)
+		}
+	}
+	return out
+}
+
+// countingLoops: the same two induction forms with any loop-invariant bound B (`< B`); lenArg is set
+// when B is len(L).
+func countingLoops(fn *ssa.Function) []*fwdLoop {
+	var out []*fwdLoop
 	for _, lp := range loopsOf(fn) {
 		iff, ok := condOf(lp.Header)
 		if !ok {
@@ -51,8 +63,8 @@ func fullIndexLoops(fn *ssa.Function) []*fwdLoop {
 		var lenArg ssa.Value
 		if ln, isLn := stripConv(y).(*ssa.Call); isLn && isBuiltin(ln, "len") {
 			lenArg = ln.Call.Args[0]
-		} else {
-			continue
+		} else if yi, isI := y.(ssa.Instruction); isI && lp.Blocks[yi.Block()] {
+			continue // the bound is recomputed inside the loop
 		}
 		var idx ssa.Value
 		switch v := stripConv(x).(type) {
@@ -99,7 +111,11 @@ func fullIndexLoops(fn *ssa.Function) []*fwdLoop {
 		if idx == nil {
 			continue
 		}
-		out = append(out, &fwdLoop{loop: lp, idx: idx, list: accessPath(lenArg), bound: y, lenArg: lenArg, header: lp.Header})
+		list := ""
+		if lenArg != nil {
+			list = accessPath(lenArg)
+		}
+		out = append(out, &fwdLoop{loop: lp, idx: idx, list: list, bound: y, lenArg: lenArg, header: lp.Header})
 	}
 	return out
 }
